@@ -101,7 +101,7 @@ def valid_calls(sig, rng, cap=30):
         if sig.get('kwonly') and (len(out) % 2 == 0):
             kw['ko'] = next(vals)          # the keyword-only parameter is passed in every other call
         for j in range(ek):
-            kw[['zz', 'yy'][j]] = next(vals)
+            kw[['zz', 'yy'][j] if not (sig['varargs'] and sig['varkw'] and j == 0 and len(out) % 3 == 0) else 'args'] = next(vals)      # a surplus keyword may be called like the *args parameter
         out.append({'a': a, 'k': kw})
     return out
 
@@ -317,6 +317,18 @@ def run_cache(case, ctx):
         if not ctx.check('cache_once_per_combination', ok, lambda: 'call #%d (*%r, **%r) on cached f%s (returns %s): f evaluated %d time(s), expected %d; result %r' % (ci, a, k, inspect.signature(f), case['ret'], n1 - n0, exp_new, got)):
             return
     ctx.check('cache_once_per_combination', len(rec.log) == model_calls, lambda: 'f evaluated %d times for %d distinct combinations' % (len(rec.log), model_calls))
+    if case.get('factory') and stack == ['cache']:
+        # the factory spelling kept in a variable and used for two functions: each function has its own memory
+        from pyg_base import cache_func
+        memo = cache_func()
+        rec1, rec2 = Rec(), Rec()
+        f1, f2 = memo(mk_fn(sig, rec1, ret='tuple')), memo(mk_fn(sig, rec2, ret='zero'))
+        call = case['pool'][case['seq'][0]]
+        a_, k_ = list(call['a']), dict(call['k'])
+        s1, g1 = ctx.call(f1, *a_, **k_)
+        s2, g2 = ctx.call(f2, *a_, **k_)
+        ctx.check('cache_once_per_combination', s1 == s2 == 'ok' and len(rec1.log) == 1 and len(rec2.log) == 1 and g2 == 0 and g1 != 0,
+                  lambda: 'memo = cache_func(); memo(f) and memo(g) called with the same arguments: f evaluated %d time(s) -> %r, g evaluated %d time(s) -> %r (g returns 0)' % (len(rec1.log), g1, len(rec2.log), g2))
     if len(set(case['seq'])) < len(case['seq']):
         ctx.mark_nontrivial(case)
     ctx.cls('cache:ret=' + case['ret'])
@@ -368,7 +380,7 @@ def gen_cache_case(rng):
     stack = rng.choice([['cache'], ['cache'], ['cache', 'kwargs_support'], ['try_none', 'cache'], ['cache', 'loop_list']])
     if 'kwargs_support' in stack and sig['varkw']:
         stack = ['cache']
-    return {'kind': 'cache', 'sig': sig, 'pool': pool, 'seq': seq, 'ret': rng.choice(['tuple', 'none', 'zero', 'empty', 'false', 'tuple']), 'stack': stack}
+    return {'kind': 'cache', 'factory': rng.random() < 0.3, 'sig': sig, 'pool': pool, 'seq': seq, 'ret': rng.choice(['tuple', 'none', 'zero', 'empty', 'false', 'tuple']), 'stack': stack}
 
 
 def plan(tier, seed, n):
